@@ -218,10 +218,16 @@ fn run_entry(case: &Case, scratch: &std::path::Path) -> Result<String, String> {
 				let _ = std::fs::write(scratch.join(name), data);
 			}
 			let dir = scratch.to_path_buf();
-			let callback = Box::new(|_filename: String| -> futures::future::BoxFuture<'static, anyhow::Result<Box<dyn versatiles_core::types::TilesReaderTrait>>> {
+			let tile: Option<Vec<u8>> = case.files.iter().find(|(n, _)| n == "tile.pbf").map(|(_, d)| d.clone());
+			let callback = Box::new(move |_filename: String| -> futures::future::BoxFuture<'static, anyhow::Result<Box<dyn versatiles_core::types::TilesReaderTrait>>> {
+				let tile = tile.clone();
 				Box::pin(async move {
 					let spec = SetSpec { tag: "w".into(), levels: vec![vt::model::LevelSpec { z: 3, x0: 1, y0: 1, w: 3, h: 3, shape: vt::model::Shape::Dense, seed: 1 }], pay: vt::model::Pay::Mvt, format: Fmt::Pbf, comp: Comp::None, really_compressed: false, advert: Advert::Tight, meta: None };
-					Ok(Box::new(vt::model::MemReader::new(&spec.materialise(), "mem")) as Box<dyn versatiles_core::types::TilesReaderTrait>)
+					let mut set = spec.materialise();
+					if let Some(t) = tile {
+						set.tiles.insert(Coord::new(3, 2, 2), t);
+					}
+					Ok(Box::new(vt::model::MemReader::new(&set, "mem")) as Box<dyn versatiles_core::types::TilesReaderTrait>)
 				})
 			});
 			let factory = versatiles_pipeline::PipelineFactory::default(&dir, callback);
@@ -924,6 +930,59 @@ fn patches() -> impl Strategy<Value = Vec<Patch>> {
 	proptest::collection::vec((0u8..4, proptest::collection::vec(mutation(), 1..3)).prop_map(|(section, muts)| Patch { section, muts }), 0..3)
 }
 
+/// vector tiles that are well-formed protobuf but odd in content: an odd number of tag words, tag
+/// indices beyond the key / value table, geometry deltas at the ends of the 64-bit range. They
+/// decode (`VectorTile::from_blob`), what fails is what is done with them afterwards.
+fn odd_mvt(mut t: vt::mvt::Tile, kind: u8, layout: u32) -> Vec<u8> {
+	use vt::mvt::{Feature, Layer, Value};
+	if t.layers.is_empty() {
+		t.layers.push(Layer { name: "a".into(), extent: None, version: Some(2), keys: vec![], values: vec![], features: vec![] });
+	}
+	let l = &mut t.layers[0];
+	if l.keys.is_empty() {
+		l.keys.push("k".into());
+	}
+	if l.values.is_empty() {
+		l.values.push(Value::Str("v".into()));
+	}
+	if l.features.is_empty() {
+		l.features.push(Feature { id: Some(1), tags: vec![0, 0], geom_type: 1, geometry: vec![9, 2, 2] });
+	}
+	let (nk, nv) = (l.keys.len() as u32, l.values.len() as u32);
+	let f = l.features.last_mut().unwrap();
+	match kind % 5 {
+		0 => f.tags.push(0),
+		1 => f.tags.extend([nk, 0]),
+		2 => f.tags.extend([0, nv]),
+		3 => f.tags.extend([u32::MAX, u32::MAX]),
+		_ => {}
+	}
+	let mut bytes = vt::mvt::encode(&t, layout);
+	if kind % 5 == 4 {
+		// one more layer whose only feature moves by the largest deltas a varint can hold
+		let mut geom = vec![];
+		for w in [(1u64 | (2 << 3)), u64::MAX - 1, 0, u64::MAX - 1, if layout % 2 == 0 { u64::MAX } else { 0 }] {
+			let mut x = w;
+			loop {
+				let b = (x & 0x7f) as u8;
+				x >>= 7;
+				if x == 0 {
+					geom.push(b);
+					break;
+				}
+				geom.push(b | 0x80);
+			}
+		}
+		let mut feature = vec![0x18, [1u8, 2, 3][(layout % 3) as usize], 0x22, geom.len() as u8];
+		feature.extend(&geom);
+		let mut layer = vec![0x78, 2, 0x0a, 1, b'g', 0x12, feature.len() as u8];
+		layer.extend(&feature);
+		bytes.extend([0x1a, layer.len() as u8]);
+		bytes.extend(&layer);
+	}
+	bytes
+}
+
 fn data_csv() -> Vec<u8> {
 	b"col0,col1,name\nw 3/2/2,7,alpha\nx,1.5,\"be,ta\"\n".to_vec()
 }
@@ -964,7 +1023,24 @@ fn cases(entry: Entry) -> BoxedStrategy<Case> {
 					let text = format!("from_container filename=\"x.versatiles\" | vectortiles_update_properties data_source_path=\"data.csv\" layer_name=w id_field_tiles=k id_field_data=col0{}", if replace { " replace_properties=true" } else { "" });
 					Case { entry, origin: format!("vpl+csv:{}mut", m.len()), data: text.into_bytes(), files: vec![("data.csv".to_string(), mutate(a, &m, &b))] }
 				});
-				prop_oneof![6 => text_case(vpl_text(), "vpl"), 4 => with_csv, 1 => random, 1 => deep].boxed()
+				// the tiles a source delivers are input, too: the in-memory source of the `Factory` entry
+				// answers with the file `tile.pbf` where there is one
+				let with_tile = (vt::mvt::tile(0, 3, 4), any::<u8>(), any::<u32>(), 0u8..3, muts(2), any::<bool>()).prop_map(move |(t, kind, layout, pipe, m, mutated)| {
+					let layer = t.layers.first().map(|l| l.name.clone()).unwrap_or_else(|| "a".to_string());
+					let tile = odd_mvt(t, kind, layout);
+					let tile = if mutated { mutate(tile.clone(), &m, &tile) } else { tile };
+					let text = match pipe {
+						0 => format!("from_container filename=\"x.versatiles\" | vectortiles_update_properties data_source_path=\"data.csv\" layer_name=\"{layer}\" id_field_tiles=k id_field_data=col0"),
+						1 => format!("from_container filename=\"x.versatiles\" | vectortiles_update_properties data_source_path=\"data.csv\" layer_name=\"{layer}\" id_field_tiles=id id_field_data=col0 replace_properties=true remove_non_matching=true"),
+						_ => "from_vectortiles_merged [ from_container filename=\"x.versatiles\", from_container filename=\"y.versatiles\" ]".to_string(),
+					};
+					Case { entry, origin: format!("vpl+tile:{}", if mutated { "mutated" } else { "odd-content" }), data: text.into_bytes(), files: vec![("data.csv".to_string(), data_csv()), ("tile.pbf".to_string(), tile)] }
+				});
+				if entry == Entry::Factory {
+					prop_oneof![6 => text_case(vpl_text(), "vpl"), 4 => with_csv, 4 => with_tile, 1 => random, 1 => deep].boxed()
+				} else {
+					prop_oneof![6 => text_case(vpl_text(), "vpl"), 4 => with_csv, 1 => random, 1 => deep].boxed()
+				}
 			} else {
 				prop_oneof![8 => text_case(vpl_text(), "vpl"), 1 => random, 1 => deep].boxed()
 			}
@@ -975,7 +1051,9 @@ fn cases(entry: Entry) -> BoxedStrategy<Case> {
 				v.extend(vt::model::mvt_min("second", &Coord::new(z, y, x)));
 				v
 			});
-			prop_oneof![10 => text_case(seed.boxed(), "mvt"), 1 => random].boxed()
+			let odd = (vt::mvt::tile(0, 3, 4), any::<u8>(), any::<u32>()).prop_map(|(t, kind, layout)| odd_mvt(t, kind, layout)).boxed();
+			let odd_plain = odd.clone().prop_map(move |data| Case { entry, data, files: vec![], origin: "mvt-odd-content".into() });
+			prop_oneof![8 => text_case(seed.boxed(), "mvt"), 2 => text_case(odd, "mvt-odd-content"), 2 => odd_plain, 1 => random].boxed()
 		}
 		Entry::VersatilesBlob | Entry::VersatilesFile => {
 			let seed = (small_spec(gen::all_pairs()), any::<u32>(), patches()).prop_map(|(spec, seed, patches)| {
